@@ -300,7 +300,7 @@ def cases(tier):
                 cs.append(Case("eq-octets-w%d-n%d" % (w, n), "eqhash", h_eq_octets, dict(w=w, n=n),
                                bounds="field of width %d (all values) compared with every octet string of length %d" % (w, n)))
     for w in WIDTHS:
-        for base in tier_pick(tier, (0, 0x1234567890ABCDEF), (0, 0x1234567890ABCDEF, 0xFFFFFFFFFFFFFFFF, 0x80)):
+        for base in sorted(set(b & ((1 << (8 * w)) - 64) for b in tier_pick(tier, (0, 0x1234567890ABCDEF), (0, 0x1234567890ABCDEF, 0xFFFFFFFFFFFFFFFF, 0x80)))):
             cs.append(Case("generator-fresh-w%d-%x" % (w, base & ((1 << (8 * w)) - 64)), "views", h_generator_fresh, dict(w=w, base=base),
                            bounds="width %d, 64 consecutive values from 0x%x" % (w, base & ((1 << (8 * w)) - 64))))
     for w in (0,) + WIDTHS:
